@@ -29,6 +29,7 @@ RULE = ('case = one document from the comment-layout generator (comment runs, ma
         'matching claim returns the same comment to the same owner; (histories) 5..15 random claim/unclaim/auto-claim calls incl. '
         'selective and refused ones, ownership re-checked after each. Non-trivial = the document has a comment adjacent to a model; '
         'distinct = hash(text, call-log prefix).')
+RULE += (" Also (rounds 9-10): released comments are also claimed back one per call in random order; every route by which a list takes a comment (append, insert, extend, item and slice assignment); where a posting and its last meta item end on the same line and the comment stands exactly at the posting's indentation, only the posting is accepted as owner.")
 ASSUMPTIONS = ['"no comment unowned after default parsing" is asserted for File targets only (a single-model target has no standalone slot)',
                'where the documentation is silent (outermost vs innermost model; an entry\'s extent when comments close or open its '
                'indented block) every reading is accepted']
